@@ -452,6 +452,24 @@ def run(chk):
         chk.instance(r_state, "State::" + nm, sample=t[:100])
         if "second." + field not in t or "makeID(action)" not in t:
             chk.violation(r_state, "State::" + nm, "State::%s no longer reads RunState::%s of this action" % (nm, field), f["file"], f["l"])
+    # an action that has never run: count 0 / run_time throws - decided on the `find(...) == end()` test of each reader
+    rcf = fx.fn1("Opm::Action::State::run_count")
+    conds = [x for x in walk(rcf["body"]) if x["k"] == "Cond"]
+    okn = False
+    if len(conds) == 1:
+        c_, a_, b_ = [strip(y) for y in conds[0]["c"]]
+        never = c_.get("k") in ("Bin", "OpCall") and c_.get("op") == "==" and "end()" in show(c_)
+        zero = [y for y in walk(a_) if y.get("k") == "Int"]
+        okn = never and [z["v"] for z in zero] == [0] and "run_count" in show(b_)
+    chk.instance(r_state, "run_count:never", sample=dict(ok=okn, expr=show(conds[0])[:100] if conds else None))
+    if not okn:
+        chk.violation(r_state, "run_count:never", "State::run_count must answer 0 for an action without a run record (find == end) and the stored count otherwise; found %s: an action that never ran counts against its maximum (or one that ran does not)" % (show(conds[0])[:100] if conds else "no conditional"), rcf["file"], rcf["l"])
+    rtf = fx.fn1("Opm::Action::State::run_time")
+    thr = [n for n in stmt_list(rtf["body"]) if n["k"] == "If" and any(x["k"] == "Throw" for x in walk(n["then"]))]
+    okt = len(thr) == 1 and strip(thr[0]["cond"]).get("op") == "==" and "end()" in show(thr[0]["cond"])
+    chk.instance(r_state, "run_time:never", sample=dict(ok=okt))
+    if not okt:
+        chk.violation(r_state, "run_time:never", "State::run_time must throw exactly when the action has no run record (find == end)", rtf["file"], rtf["l"])
 
     # ---- C18.gate
     r_gate = chk.rule("C18.gate", "Actions::pending filters by ready(); ACTIONX objects are evaluated/applied only when drawn from pending(), and an applied action is recorded with State::add_run", floor=2)
@@ -534,6 +552,69 @@ def run(chk):
     chk.instance(r_evl, "comparison", sample=dict(returns=txt, ok=okc))
     if not okc:
         chk.violation(r_evl, "comparison", "evalComparison must return children.front().nodeValue(context).eval_cmp(this->type, <value of children[1]>); found %s: the comparison uses another operand or operator than the condition names" % txt, ec["file"], ec["l"])
+
+    # ---- C18.sorted: the matching-well set is a sorted vector; the std set algorithms need it sorted and unique
+    r_so = chk.rule("C18.sorted", "MatchingEntities keeps its wells in a sorted vector and combines sets with std::set_union / std::set_intersection / binary_search, which require sorted input: every function that inserts into the set commits (sort + unique) before it returns; commit sorts, removes duplicates up to the end and installs the result; the intersection with empty handling leaves the set alone when the other side has none, adopts the other side when it has none itself and intersects otherwise", floor=4)
+    from verif.tree import escapes_without
+    impl_fns = [f for f in fx.fns if f["file"].endswith("ActionResult.cpp") and (f.get("cls") or "").endswith("MatchingEntities::Impl") and f.get("body")]
+    n_ins = 0
+    for f in impl_fns:
+        ins = [n for n in walk(f["body"]) if n["k"] == "MCall" and n.get("m") == "insert" and "wells_" in show(n.get("obj") or {})]
+        for n in ins:
+            n_ins += 1
+            bad = escapes_without(f["body"], n, lambda s_: s_.get("k") == "MCall" and s_.get("m") == "commit" and "wells_" in show(s_.get("obj") or {}))
+            key = "insert:%s" % f["n"]
+            chk.instance(r_so, key, sample=dict(function=f["q"], committed_on_every_path=not bad))
+            if bad:
+                chk.violation(r_so, key, "%s inserts into the well set and can return without commit(): the vector is then unsorted / holds duplicates while hasWell (binary_search), AND (set_intersection) and OR (set_union) assume a sorted unique range - wells are missed or reported twice" % f["q"], f["file"], n["l"])
+    if not n_ins:
+        raise core.AnalysisBroken("MatchingEntities::Impl: no insertion into the well set found")
+    cm = [f for f in fx.fns if f["file"].endswith("ActionResult.cpp") and f["n"] == "commit" and f.get("body") and len(f.get("params") or []) == 2]
+    if len(cm) != 1:
+        raise core.AnalysisBroken("SortedVectorSet::commit(cmp, eq) not found (%d)" % len(cm))
+    cm = cm[0]
+    order = []
+    uvar = None
+    for n in walk(cm["body"]):
+        if n["k"] == "Call":
+            nm_ = (n.get("fn") or (n.get("callee") or {}).get("n") or "").split("::")[-1].split("<")[0]
+            if nm_ in ("sort", "stable_sort", "unique", "transform"):
+                order.append((nm_, n["l"]))
+        m_, o_ = meth(n)
+        if m_ == "erase" and n.get("a") and len(n["a"]) == 2:
+            order.append(("erase(%s,%s)" % (show(strip(n["a"][0])), show(strip(n["a"][1])).replace(" ", "")), n["l"]))
+        if m_ == "swap":
+            order.append(("swap", n["l"]))
+        if n["k"] == "Decl":
+            for v in n["vars"]:
+                if isinstance(v.get("init"), dict) and any(x["k"] == "Call" and (x.get("fn") or (x.get("callee") or {}).get("n") or "").split("::")[-1].startswith("unique") for x in walk(v["init"])):
+                    uvar = v["n"]
+    names_o = [o[0] for o in sorted(order, key=lambda t: t[1])]
+    want_o = ["sort", "unique", "erase(%s,i.end())" % uvar, "transform", "swap"]
+    chk.instance(r_so, "commit", sample=dict(steps=names_o))
+    if [x for x in names_o if not x.startswith("erase")] != ["sort", "unique", "transform", "swap"] or not any(x.startswith("erase(%s," % uvar) and x.endswith(".end())") for x in names_o) or names_o.index([x for x in names_o if x.startswith("erase")][0]) != 2:
+        chk.violation(r_so, "commit", "SortedVectorSet::commit must sort, find the unique prefix, erase from there to the END, move the survivors over and install them (found %s): duplicates or an unsorted tail survive and the set algorithms give wrong unions / intersections" % names_o, cm["file"], cm["l"])
+    ie = [f for f in fx.fns if f["file"].endswith("ActionResult.cpp") and f["n"] == "intersectWithEmptyHandling" and f.get("body")]
+    if len(ie) != 1:
+        raise core.AnalysisBroken("intersectWithEmptyHandling not found")
+    ie = ie[0]
+    po, pc_ = ie["params"][0]["n"], ie["params"][1]["n"]
+    st_ = stmt_list(ie["body"])
+    oke = False
+    if len(st_) == 2 and all(x["k"] == "If" for x in st_):
+        c0 = show(strip(st_[0]["cond"])).replace(" ", "")
+        c1 = show(strip(st_[1]["cond"])).replace(" ", "")
+        t0 = [x["k"] for x in stmt_list(st_[0]["then"])]
+        t1 = [show(x).replace(" ", "") for x in stmt_list(st_[1]["then"])]
+        e1 = [show(x).replace(" ", "") for x in stmt_list(st_[1].get("else"))] if st_[1].get("else") is not None else []
+        oke = c0 == "(!%s.has_value())" % po and t0 == ["Return"] and st_[0].get("else") is None and c1 == "(!%s.has_value())" % pc_ and t1 == ["(%s=%s)" % (pc_, po)] \
+            and len(e1) == 1 and re.fullmatch(r"(\(->%s\)|%s)\.makeIntersection\(\(\*%s\)\)" % (pc_, pc_, po), e1[0]) is not None
+        det_e = dict(first=c0, second=c1, adopt=t1, otherwise=e1)
+    else:
+        det_e = dict(statements=[x["k"] for x in st_])
+    chk.instance(r_so, "intersect-empty", sample=det_e)
+    if not oke:
+        chk.violation(r_so, "intersect-empty", "intersectWithEmptyHandling(other, curr) must return when `other` has no set, adopt `other` when `curr` has none, and intersect otherwise (found %s): a scalar sub-condition would wipe or fail to restrict the set of matching wells" % det_e, ie["file"], ie["l"])
 
     # ---- C18.month: numeric month indices
     r_mo = chk.rule("C18.month", "a MNTH comparison with a numeric right-hand side compares with the NEAREST integer month (the documented rule: MNTH = 10.8 holds in November): the number goes through a round-to-nearest function, not through a truncating conversion", floor=1)
